@@ -251,6 +251,14 @@ def run(ctx):
     fams = [('strings', strings(3 if ctx.quick else 4)),
             ('tokens', token_sequences(TOKENS, 2) + (token_sequences(TOKENS_SHORT[:30], 3) if ctx.quick else token_sequences(TOKENS_SHORT, 4))),
             ('edits', edits())]
+    # very long single tokens (beyond limits built into the interpreter, e.g. 4300 digits for int())
+    longs = []
+    for n in (4300, 4301, 10000):
+        d, a = '7' * n, 'a' * n
+        longs += ['x = %s;' % d, 'x = %s + ;' % d, '::f(a: %s, b: y[%s]);' % (d, d), 'x = %s.5;' % d, 'x = 1.%s;' % d, 'x = 1e%s;' % d[:400],
+                  '%s = 1;' % a, 'x = "%s";' % a, "generate E1:'%s'() to x;" % a, 'x = %s::%s;' % (a, a), d, 'return %s' % d,
+                  '/*%s*/x = 1;' % a, '//%s' % a, '(' * (n // 40) + '1' + ')' * (n // 40) + ';']
+    fams.append(('long-tokens', longs))
     for fam, texts in fams:
         k = ctx.seed % 5
         texts = texts[k:] + texts[:k]
